@@ -397,8 +397,16 @@ def _length_fact(fi, atom, pol):
     l, op, r = atom.left, atom.ops[0], atom.comparators[0]
     def is_len(e):
         return isinstance(e, ast.Call) and isinstance(e.func, ast.Name) and e.func.id == "len"
-    def is_max(e):
-        return "MAX_EXPRESSION_LENGTH" in src(e) or "max_expression_length" in src(e).lower()
+    def is_max(e, depth=0):
+        if "MAX_EXPRESSION_LENGTH" in src(e) or "max_expression_length" in src(e).lower():
+            return True
+        if isinstance(e, ast.Name) and depth < 3:
+            # a local alias: `limit = self.max_expression_length` … `len(expression) > limit`
+            defs = [n.value for n in ast.walk(fi.node) if isinstance(n, ast.Assign) and any(isinstance(t, ast.Name) and t.id == e.id for t in n.targets)]
+            return bool(defs) and all(is_max(d, depth + 1) for d in defs)
+        if isinstance(e, ast.Call) and isinstance(e.func, ast.Name) and e.func.id == "min" and e.args:
+            return any(is_max(a, depth + 1) for a in e.args)          # min(configured, MAX): at most the maximum
+        return False
     if is_len(l) and is_max(r):
         return (isinstance(op, (ast.Gt, ast.GtE)) and pol is False) or (isinstance(op, (ast.Lt, ast.LtE)) and pol is True)
     if is_max(l) and is_len(r):
@@ -474,7 +482,7 @@ def _may_raise(n, fi, callee_summary, res):
                 return True
             if d in RAISING_CALLS or last in ("loads", "parse", "literal_eval"):
                 return True
-            if d in TOTAL_CALLS or total_subclass_test(x) or (isinstance(x.func, ast.Attribute) and last in TOTAL_METHODS):
+            if d in TOTAL_CALLS or total_subclass_test(x) or (isinstance(x.func, ast.Attribute) and last in TOTAL_METHODS) or d.startswith(("time.", "hashlib.")):
                 continue
             if d == "hasattr" or (d == "getattr" and (len(x.args) >= 3 or (len(x.args) == 2 and (isinstance(x.args[1], ast.Constant) or res.closed_name(fi, x.args[1]))))):
                 continue      # attribute lookup by a name written in the source (dispatch table) or with a default
